@@ -277,7 +277,7 @@ def h18_special_values(S):
     from repid.data._key import RoutingKey
     from repid.dependencies import Depends
 
-    which = S.pick("case", 5)
+    which = S.pick("case", 7)
     nested = S.flag("nested_under_another_provider") if which < 3 else False
     received = []
     out = {}
@@ -301,7 +301,33 @@ def h18_special_values(S):
     def sandbox():
         return "sandbox"
 
-    if which == 3:
+    if which == 5:
+        # a synchronous provider that is a functools.partial (no __name__), declared directly or installed as an override
+        import functools
+
+        def scaled(k, base=10):
+            return k * base
+
+        as_override = S.flag("installed_as_an_override")
+        if as_override:
+            dep = Depends(plain)
+            dep.override(functools.partial(scaled, 4))
+        else:
+            dep = Depends(functools.partial(scaled, 4))
+
+        async def actor(d: Annotated[int, dep]):
+            received.append(d)
+    elif which == 6:
+        # a provider declared for the process pool, overridden (as tests do) by a local function: the override runs in a thread
+        from harness.actors import cpu_bound_provider
+        dep = Depends(cpu_bound_provider, run_in_process=True)
+        overridden = S.flag("overridden_by_a_local_lambda")
+        if overridden:
+            dep.override(lambda: "from-the-override")
+
+        async def actor(d: Annotated[str, dep]):
+            received.append(d)
+    elif which == 3:
         # the annotated type is itself a dependency class, the metadata names the provider to use
         async def actor(d: Annotated[MessageDependency, Depends(tagged)]):
             received.append(d)
@@ -336,7 +362,15 @@ def h18_special_values(S):
 
     run_async(main, clock=PinnedClock(T0))
     S.cover("special-values")
-    S.tag("case", ["returns-exception-instance", "answers-the-message", "plain", "annotated-dependency-class-with-provider", "two-depends-one-provider"][which])
+    S.tag("case", ["returns-exception-instance", "answers-the-message", "plain", "annotated-dependency-class-with-provider", "two-depends-one-provider",
+                   "partial-as-sync-provider", "process-pool-provider"][which])
+    if which == 5:
+        S.check("callable-without-a-name-works-as-a-provider", received == [40] and out["ops"] == ["ack"], info=f"received={received} ops={out['ops']}")
+        return
+    if which == 6:
+        want = "from-the-override" if overridden else "from-the-process-pool"
+        S.check("override-of-a-process-pool-provider-takes-effect", received == [want] and out["ops"] == ["ack"], info=f"received={received} ops={out['ops']}")
+        return
     if which == 3:
         S.check("provider-named-in-the-annotation-is-used", received == [("tagged", "m1")] and out["ops"] == ["ack"], info=f"received={received} ops={out['ops']}")
         return
